@@ -276,15 +276,66 @@ func main() {
 			cases = append(cases, c)
 		})
 	}
+	// every case runs under a deadline: a call that does not return is an outcome ("hang"), not a reason for the whole
+	// check to wait for the stream's time limit. The case runs on a shallow copy, so that the abandoned goroutine
+	// cannot write into what is reported. After a few hangs the remaining cases of that operation are not started.
+	deadline := 25 * time.Second
+	switch *streamName {
+	case "race":
+		deadline = 900 * time.Second
+	case "watch", "reconf", "fswrite", "cli", "cache", "defaultapi", "crash", "codec", "schema", "purity":
+		deadline = 180 * time.Second
+	}
+	if d, err := time.ParseDuration(os.Getenv("VERIF_CASE_DEADLINE")); err == nil && d > 0 {
+		deadline = d
+	}
+	hung := map[int]bool{}
+	hangsPerOp := map[string]int{}
 	n0 := len(cases)
 	for i := 0; i < n0; i++ {
 		c := cases[i]
-		s.Execute(c)
+		op, _ := c["op"].(string)
+		if hangsPerOp[op] >= 3 {
+			hung[i] = true
+			c["hang"] = "not started: three earlier cases of this operation did not return"
+			continue
+		}
+		cc := Case{}
+		for k, v := range c {
+			cc[k] = v
+		}
+		done := make(chan struct{})
+		go func() {
+			defer close(done)
+			s.Execute(cc)
+		}()
+		select {
+		case <-done:
+			cases[i] = cc
+			c = cc
+		case <-time.After(deadline):
+			hung[i] = true
+			hangsPerOp[op]++
+			c["hang"] = fmt.Sprintf("the call did not return within %s", deadline)
+			continue
+		}
 		// a case may spawn derived, already observed cases (e.g. the removal following a write)
 		if sp, ok := c["spawn"].([]Case); ok {
 			delete(c, "spawn")
 			cases = append(cases, sp...)
 		}
+	}
+	var hungCases []Case
+	if len(hung) > 0 {
+		var live []Case
+		for i, c := range cases {
+			if hung[i] {
+				hungCases = append(hungCases, c)
+			} else {
+				live = append(live, c)
+			}
+		}
+		cases = live
 	}
 	vs, err := runDriver(*driver, cases)
 	if err != nil {
@@ -335,6 +386,21 @@ func main() {
 			if len(sum.JudgeFailures) < *maxFail {
 				sum.JudgeFailures = append(sum.JudgeFailures, Failure{Case: c, Judge: v.Judge, Agree: v.Agree, Model: v.Model, Readable: readable(c)})
 			}
+		}
+	}
+	for _, c := range hungCases {
+		sum.Evaluations++
+		op, _ := c["op"].(string)
+		sum.Ops[op]++
+		sum.Tags["hang"]++
+		sum.NJudgeFailures++
+		sum.NDisagreements++
+		f := Failure{Case: c, Judge: "panic-or-hang: " + fmt.Sprint(c["hang"]), Agree: false, Readable: readable(c)}
+		if len(sum.JudgeFailures) < *maxFail {
+			sum.JudgeFailures = append(sum.JudgeFailures, f)
+		}
+		if len(sum.Disagreements) < *maxFail {
+			sum.Disagreements = append(sum.Disagreements, f)
 		}
 	}
 	sum.DistinctInputs = len(seen)
